@@ -131,12 +131,8 @@ def check_seq(ctx, c, cfg, legacy_match, stats):
             A_obs = _dense(ref.model.get_matrix())
         A_spec = np.array(c["A"], dtype=float)
         conforms = A_obs.shape == A_spec.shape and np.allclose(A_obs, A_spec, atol=1e-9)
-        if p == "Deconvolution1D_legacy":
-            lk = (c["n"], _argkey(c, "psf"))
-            if not conforms:
-                legacy_match.setdefault(lk, False)
-                return False
-            legacy_match[lk] = True
+        # (a non-conforming operator - e.g. the transposed legacy matrix, finding C17-F3 - is reported by the construction
+        #  facet; here the numbers of the untouched twin are used then, nothing cascades)
     known = (wang or (c["dknown"] and conforms))
     # ---- the two versions of the data and of the prior
     yex = None if wang else _vals(ref.exactData).copy()
